@@ -157,7 +157,9 @@ func NewChecker(ctx *Context, info *CheckerInfo) (*Checker, error) {
 // Check runs rule checker over file f.
 func (c *Checker) Check(f *ast.File) []Warning {
 	c.ctx.warnings = c.ctx.warnings[:0]
+	verifCheckBegin(c, f)
 	c.fileWalker.WalkFile(f)
+	verifCheckEnd(c, f)
 	return c.ctx.warnings
 }
 
@@ -271,6 +273,7 @@ func (c *Context) SetPackageInfo(info *types.Info, pkg *types.Package) {
 		*c.TypesInfo = *info
 	}
 	c.Pkg = pkg
+	verifSetPkg(c, pkg)
 }
 
 // SetFileInfo sets file-related metadata.
@@ -284,6 +287,7 @@ func (c *Context) SetFileInfo(name string, f *ast.File) {
 	if c.Require.PkgRenames {
 		resolvePkgRenames(c, f)
 	}
+	verifSetFile(c, name, f)
 }
 
 // CheckerContext is checker-local context copy.
